@@ -196,11 +196,19 @@ def r4_non_peers_never_reach_interface(cx):
         cx.check("only-ok-results-handled", ok, site_of(hnm, ci), "handle_message receives only the Ok payload of a PeerCrypto::handle_message result")
 
 
+def r5_selection_keys_agree(cx):
+    """The peer selected for a frame is found by looking up its destination key among the keys learned from source
+    addresses: both keys must be built the same way (same VLAN masking), or known destinations are flooded."""
+    from .c13 import tag_masked_before_use
+    tag_masked_before_use(cx, "keys")
+
+
 RULES = [
     ("C10.R1", r1_no_relay, "no Socket::send reachable from handle_payload_from; payload senders unreachable from the receive path"),
     ("C10.R2", r2_single_reader, "single Device::read whose buffer is the one dissected and forwarded unmodified"),
     ("C10.R3", r3_one_copy_per_selected_peer, "exactly one forwarding action per frame; one send per peer in broadcast"),
     ("C10.R4", r4_non_peers_never_reach_interface, "datagrams are dispatched only to pending handshakes / peers / throw-away responder for handshake messages"),
+    ("C10.R5", r5_selection_keys_agree, "source (learned) and destination (looked-up) keys of the Ethernet dissector are built alike"),
 ]
 
 LEVEL_TEXT = ("Static call-graph reachability and per-path counting on MIR: nothing reachable from the received-payload handler can send; the only "
